@@ -614,6 +614,8 @@ pub struct RWalk {
     pub tr: Option<(usize, RTr)>,
     /// ether type of the innermost ether payload that was reached and its range (for payload checks)
     pub ether_payload: Option<(u16, usize, usize)>,
+    /// what limits that payload (the slice, or the short length of an enclosing MACsec tag)
+    pub ether_payload_lim: Lim,
     /// strict: decoding fails with this; lax: decoding stops here and keeps what is in front of it
     pub fault: Option<RFault>,
     /// lax only: the ether type announced one IP version, the version nibble says the other one (the lax
@@ -626,7 +628,7 @@ pub struct RWalk {
 /// over-claims the way the lax decoders document it.
 pub fn walk(start: Start, s: &[u8], lax: bool) -> RWalk {
     let none = RExt { kind: RL::Vlan, off: 0, hlen: 0 };
-    let mut w = RWalk { link: None, n_exts: 0, exts: [none; 3], net: None, tr: None, ether_payload: None, fault: None, ip_version_mismatch: false };
+    let mut w = RWalk { link: None, n_exts: 0, exts: [none; 3], net: None, tr: None, ether_payload: None, ether_payload_lim: Lim::Slice, fault: None, ip_version_mismatch: false };
     let mut pos = 0usize;
     let mut end = s.len();
     let mut lim = Lim::Slice;
@@ -664,6 +666,7 @@ pub fn walk(start: Start, s: &[u8], lax: bool) -> RWalk {
     }
     loop {
         w.ether_payload = Some((et, pos, end - pos));
+        w.ether_payload_lim = lim;
         match et {
             ET_VLAN | ET_QINQ | ET_QINQ_OLD => {
                 if w.n_exts == 3 {
